@@ -77,11 +77,17 @@ def main():
             res[f"check_{a.tier}"] = caught
             res["caught"] = any(v["exit"] == 1 for v in caught.values())
             # merge into the file on disk right away (several runs may be going on)
-            results = json.load(open(rp)) if os.path.exists(rp) else {}
-            prev = results.get(sid, {})
-            prev.update(res)
-            results[sid] = prev
-            json.dump(results, open(rp, "w"), indent=1, sort_keys=True)
+            import fcntl
+
+            with open(rp + ".lock", "w") as lk:
+                fcntl.flock(lk, fcntl.LOCK_EX)
+                results = json.load(open(rp)) if os.path.exists(rp) else {}
+                prev = results.get(sid, {})
+                prev.update(res)
+                results[sid] = prev
+                tmp = rp + f".tmp{os.getpid()}"
+                json.dump(results, open(tmp, "w"), indent=1, sort_keys=True)
+                os.replace(tmp, rp)
             print(sid, prop, "CAUGHT" if res["caught"] else "MISSED", {k: v["exit"] for k, v in caught.items()},
                   {k: res[k] for k in ("demo_clean_exit", "demo_patched_exit", "suite_ok_with_patch") if k in res})
         finally:
